@@ -372,7 +372,7 @@ const companySuffix = "+company"
 // an expression or statement form, swallowed by ??, a catching function or try/catch, judged against the
 // fault-free sibling program; every property gets the forms that are instances of its statement.
 var swallowedProps = map[string]bool{"C03": true, "C04": true, "C05": true, "C06": true, "C07": true, "C08": true, "C09": true,
-	"C10": true, "C11": true, "C19": true}
+	"C10": true, "C11": true, "C19": true, "C20": true}
 
 func deriveCompany(p *fw.Plan, prop, tier, bin string) {
 	if os.Getenv("VERIF_NO_COMPANY") != "" {
